@@ -3,6 +3,7 @@
 mod ast;
 mod codec;
 mod interp;
+mod interp_ftx;
 mod climits;
 mod compile;
 mod frags;
